@@ -599,6 +599,15 @@ def gen_cases(rng, tier):
                 owner += b'!'
             plain.append((fmt, doc, kind, user, owner))
             prep.append(L('enc-prep', kind, xb(user), xb(owner), doc))
+        if tier != 'quick':
+            # revision 6 (V5, AES-256, Algorithm 2.B): the same composition, thorough tier only -- one 2.B hash costs about 4 s in
+            # the extracted model, an rt-enc case about 22 s; one document with an empty user password (load_mem decrypts on the
+            # way) and one with a non-empty one (decrypt(PW) afterwards)
+            for user in (b'', b'us(er\\6'):
+                fmt, doc = gen_doc(rng, reals, True, for_encrypt=True)
+                owner = b'own)er 6'
+                plain.append((fmt, doc, 'v5', user, owner))
+                prep.append(L('enc-prep', 'v5', xb(user), xb(owner), doc))
         encs = vlib.run_lines(impl, prep, timeout=600, shards=8)
         enc_files = []
         for (fmt, doc, kind, user, owner), o in zip(plain, encs):
